@@ -1162,9 +1162,9 @@ def oracle(case, impl):
             what = f"{case['data']} data, n_obs={case['n']}, subset {case['ix']}"
             # `MultivariateFunctionalData.normalize` concatenates the single observations `self[0], self[1], …`,
             # whose irregular components keep their labels: the concatenation clause fails inside it
-            via_concat = ((name.startswith("concat") or name == "attr:stand of concat") and case["data"] in ("I", "MI", "I2")) or (name == "normalize" and case["data"] == "MI")
+            via_concat = ((name.startswith("concat") or name == "attr:stand of concat") and case["data"] in ("I", "MI", "I2")) or (name.startswith("normalize") and case["data"] == "MI")
             if via_concat:
-                entry = "concatenate" if name.startswith("concat") else "normalize"
+                entry = "normalize" if name.startswith("normalize") else "concatenate"
             if r["sub_err"] != r["twin_err"] and via_concat:
                 vs.append(dict(clause="concat_pieces", entry=entry, causes=["noncanonical_piece_labels"],
                                msg=f"{name} on the subset ({what}) -> {r['sub_err'] or 'a result'}, on the twin -> {r['twin_err'] or 'a result'}"))
